@@ -1,4 +1,5 @@
 import Pathrs.Replay
+import Pathrs.Discipline
 
 /-!
 # Model driver: reads harness transcripts on stdin, replays each case through
@@ -325,6 +326,16 @@ partial def readCases (h : IO.FS.Stream) (cur : Case) (inAfter : Bool) (pendingC
     readCases h {} false none emit
   | _ => readCases h cur inAfter pendingCall emit
 
+/-- the discipline predicate of C05 evaluated on the recorded calls of the implementation -/
+def judgeDisc (c : Case) : String :=
+  match c.events.find? fun (cl, _) => !decide (Disc true cl) with
+  | none =>
+    let follows := c.events.filter fun (cl, _) => !decide (Disc false cl)
+    s!"disc {c.id} ok calls={c.events.length} follow_opens={follows.length}"
+  | some (cl, _) => s!"disc {c.id} BAD {showCall cl}"
+
 def main : IO Unit := do
   let stdin ← IO.getStdin
-  readCases stdin {} false none fun c => IO.println (judge c)
+  readCases stdin {} false none fun c => do
+    IO.println (judge c)
+    IO.println (judgeDisc c)
